@@ -239,6 +239,11 @@ def parse_statement(toks, sql):
             items.append(t[1][1:-1])
             if p.at_punct(','):
                 p.next()
+                if p.at_punct(')'):
+                    # a comma announces another label: `'a', )` declares an empty extra label (no SQL dialect takes it)
+                    raise DDLError('comma before the closing parenthesis of an enum item list')
+            elif not p.at_punct(')'):
+                raise DDLError(f'comma or ) expected after an enum item, got {p.peek()[1]!r}')
         p.punct(')')
         st = {'kind': 'type', 'name': name, 'items': items}
     elif p.at_words('CREATE', 'TABLE'):
